@@ -66,6 +66,11 @@ func (e *Engine) verifyCase(key string, fd *ast.FuncDecl, c *FuncContract, pinne
 	if x.mode == "" {
 		x.mode = "R"
 	}
+	x.fuel = c.Fuel
+	if x.fuel == 0 {
+		x.fuel = 2
+	}
+	e.curFuel = x.fuel
 	x.fnObj = p.TypesInfo.Defs[fd.Name].(*types.Func)
 	defer func() {
 		if r := recover(); r != nil {
@@ -182,7 +187,10 @@ func (e *Engine) verifyCase(key string, fd *ast.FuncDecl, c *FuncContract, pinne
 func (x *Exec) entryValue(st *State, t types.Type, name string) Value {
 	switch u := t.Underlying().(type) {
 	case *types.Slice:
-		s := SliceV{Ref: x.declareOnce(name+"_ref0", SInt), Off: x.declareOnce(name+"_off0", SInt), Len: x.declareOnce(name+"_len0", SInt), Cap: x.declareOnce(name+"_cap0", SInt), Elem: u.Elem()}
+		// A-alias: slice parameters of one element type are the same window or disjoint arrays, so each
+		// parameter's window is modelled as starting at offset 0 of its own abstract array.
+		x.eng.assume("A-alias: slice parameters with the same element type do not partially overlap (each parameter window is modelled at offset 0 of its backing array)")
+		s := SliceV{Ref: x.declareOnce(name+"_ref0", SInt), Off: Int(0), Len: x.declareOnce(name+"_len0", SInt), Cap: x.declareOnce(name+"_cap0", SInt), Elem: u.Elem()}
 		st.assume(And(Cmp("<=", Int(0), s.Off), Cmp("<=", Int(0), s.Len), Cmp("<=", s.Len, s.Cap), Cmp("<=", Int(0), s.Ref), Cmp("<", s.Ref, x.alloc0),
 			Cmp("<=", Add(s.Off, s.Cap), x.eng.specConsts["MaxBits"])), "type-inv:"+name)
 		st.assume(Implies(Eq(s.Ref, Int(0)), Eq(s.Cap, Int(0))), "type-inv:"+name)
@@ -227,6 +235,7 @@ func (x *Exec) atReturn(s *State, vals []Value) {
 	mkEnv := func(extraLets []LetDef) *SpecEnv {
 		env := x.specEnvAt(s, end, 0)
 		env.results = vals
+		env.postMode = true
 		env.lets = append(append([]LetDef{}, env.lets...), extraLets...)
 		return env
 	}
